@@ -369,6 +369,7 @@ cgssvx(superlu_options_t *options, SuperMatrix *A, int *perm_c, int *perm_r,
     SuperMatrix *AA;/* A in SLU_NC format used by the factorization routine.*/
     SuperMatrix AC; /* Matrix postmultiplied by Pc */
     int       colequ, equil, nofact, notran, rowequ, permc_spec;
+    int       conj_nr = 0; /* row storage with Trans = CONJ: solve with conj(B), conj(X) */
     trans_t   trant;
     char      norm[1];
     int       i, j, info1;
@@ -491,6 +492,9 @@ printf("dgssvx: Fact=%4d, Trans=%4d, equed=%c\n",
 	    trant = TRANS;
 	    notran = 0;
 	} else {
+	    /* A^T x = b is AA x = b; A^H x = b is conj(AA) x = b, i.e.
+	       AA conj(x) = conj(b). */
+	    conj_nr = (options->Trans == CONJ);
 	    trant = NOTRANS;
 	    notran = 1;
 	}
@@ -603,6 +607,12 @@ printf("dgssvx: Fact=%4d, Trans=%4d, equed=%c\n",
                     cs_mult(&Bmat[i+j*ldb], &Bmat[i+j*ldb], C[i]);
         }
 
+        if ( conj_nr ) { /* solve for conj(X) with conj(B) */
+            for (j = 0; j < nrhs; ++j)
+                for (i = 0; i < A->nrow; ++i)
+                    Bmat[i + j*ldb].i = -Bmat[i + j*ldb].i;
+        }
+
         /* Compute the solution matrix X. */
         for (j = 0; j < nrhs; j++)  /* Save a copy of the right hand sides */
             for (i = 0; i < B->nrow; i++)
@@ -622,6 +632,14 @@ printf("dgssvx: Fact=%4d, Trans=%4d, equed=%c\n",
             for (j = 0; j < nrhs; ++j) ferr[j] = berr[j] = 1.0;
         }
         utime[REFINE] = SuperLU_timer_() - t0;
+
+        if ( conj_nr ) { /* back to X and the caller's B */
+            for (j = 0; j < nrhs; ++j)
+                for (i = 0; i < A->nrow; ++i) {
+                    Xmat[i + j*ldx].i = -Xmat[i + j*ldx].i;
+                    Bmat[i + j*ldb].i = -Bmat[i + j*ldb].i;
+                }
+        }
 
         /* Transform the solution matrix X to a solution of the original system. */
         if ( notran ) {
